@@ -349,3 +349,14 @@ func vReplayWitnesses(t *testing.T, harnesses map[string]func()) {
 		fmt.Println("WITNESS-RESULT", string(out))
 	}
 }
+
+// file-system model intrinsics: engine-only (the native build uses the real file system)
+func vFSCrashAt(k int)        {}
+func vFSOps() int             { return 0 }
+func vFSCrashed() bool        { return false }
+func vFSApplyCrash()          {}
+func vFSMkdirAll(path string) {}
+func vFSSyncAll()             {}
+func vBlobID(b []byte) uint64 { return vBlobToCell(b) & 0xffffffff }
+func vFileContent(b *bufferedFile) uint64 { return 0 }
+func vFSCorruptFile(path string) bool { return false }
